@@ -45,8 +45,8 @@ LABEL_CHARS = list("abcXYZ019_-:()/#,;.'\"!?*") + ["Ã©", "ÃŸ", "æ—¥", "æœ¬", "â™
 
 
 def plan(tier, seed):
-    n = 45 if tier == "quick" else 1000
-    return [{"name": "io-%d" % p, "n": n} for p in range(12 if tier == "quick" else 16)]
+    n = 200 if tier == "quick" else 3000
+    return [{"name": "io-%d" % p, "n": n} for p in range(16)]
 
 
 def rfloat(r, nonneg=False):
